@@ -1,7 +1,7 @@
 """helpers shared by several property checkers."""
 import ast
 
-from ..model import AnalysisError, unparse
+from ..model import AnalysisError, unparse, walk_local, call_name
 from ..engines import dimgen, resolve
 
 # (module, function-prefix) -> reason : objects that are three-dimensional by definition
@@ -267,6 +267,7 @@ def memoryless_setters(model, rep, setters, rule='state-reuse-keyed'):
                    'differs only in %s leaves self.%s as computed for the previous arguments'
                    % (', '.join(miss), '; '.join(unparse(g)[:60] for g in r.guards) or 'none', ', '.join(miss), r.attr),
                    engine='memo', qual='%s.%s' % (cname, meth))
+    _memo_keys_owned(model, rep, setters)
     # synthetic positive example: a cache keyed on one of two arguments
     from ..model import attach_parents
     probe = attach_parents(ast.parse(
@@ -276,6 +277,61 @@ def memoryless_setters(model, rep, setters, rule='state-reuse-keyed'):
     if 'v' not in rr or rr['v'].value_deps - rr['v'].guard_deps != {'b'}:
         raise AnalysisError('memo engine self-check failed on the synthetic conditional reuse')
     return n
+
+
+def _deep_tokens(an, toks):
+    seen, todo = set(), list(toks)
+    while todo:
+        t = todo.pop()
+        if t in seen:
+            continue
+        seen.add(t)
+        todo.extend(an.elems.get(t, ()))
+        for p in an.tuples.get(t, ()):
+            todo.extend(p)
+    return seen
+
+
+def _memo_keys_owned(model, rep, setters, rule='memo-key-owned'):
+    """A state-setting method that remembers what it was last called with (to skip a repeated call) must remember a *copy*:
+    if the remembered key shares storage with the caller's argument (``np.asarray`` of a float array is the array itself),
+    the caller editing its array in place and calling again compares the array with itself, and the call is skipped with
+    the object still describing the old values.  Alias analysis of the method: every attribute read by one of its
+    early-return guards and assigned by the method holds nothing that may alias a parameter."""
+    from ..engines import memo, alias
+    rep.rule(rule, 'what an early-return guard of a state-setting method compares its arguments with shares no storage with the arguments')
+    for mname, cname, meth in setters:
+        mod = model.mod(mname)
+        ci = model.cls(mname, cname)
+        fn = ci.methods[meth]
+        s = fn.args.args[0].arg
+        params = [a.arg for a in fn.args.args[1:] + fn.args.kwonlyargs]
+        gattrs = set()
+        for g in memo.find_guards(fn):
+            gattrs |= {x.attr for x in ast.walk(g.node.test) if isinstance(x, ast.Attribute) and isinstance(x.value, ast.Name)
+                       and x.value.id == s}
+        if not gattrs:
+            continue
+        an = alias.Analyzer(model, mod, ci, {}, depth=0)
+        res = an.run(fn)
+        for node, path, toks in res.stores:
+            a = path.split('.', 1)[1] if path.startswith('self.') else None
+            if a is None or a.split('[')[0].split('.')[0] not in gattrs or path.endswith('()'):
+                continue
+            deep = _deep_tokens(an, toks)
+            shared = sorted(p for p in params if any(t == 'P:' + p or t.startswith('P:%s.' % p) or t == 'E:P:' + p for t in deep))
+            rep.ob(rule, mod, node, '%s.%s: %s = %s' % (cname, meth, path, unparse(getattr(node, 'value', node))[:60]), not shared,
+                   '' if not shared else 'the remembered value is (or contains a view of) the caller\'s own %s: after the caller edits '
+                   'that array in place the guard compares it with itself and skips the recomputation' % ', '.join(shared),
+                   engine='alias', qual='%s.%s' % (cname, meth))
+    # synthetic positive example
+    from ..model import attach_parents
+    probe = attach_parents(ast.parse('class X:\n def set(self, a):\n  k = tuple(x.T for x in (a,))\n  self.k = k\n'))
+    from ..model import ClassInfo
+    an = alias.Analyzer(None, None, ClassInfo(None, probe.body[0]), {}, depth=0)
+    res = an.run(probe.body[0].body[0])
+    if not any(path == 'self.k' and any(t.startswith(('P:a', 'E:P:a')) for t in _deep_tokens(an, toks)) for _, path, toks in res.stores):
+        raise AnalysisError('alias engine self-check failed: a view of a parameter kept in a tuple is not seen as the parameter')
 
 
 # ---------------------------------------------------------------- rotations act from the left
@@ -403,6 +459,11 @@ def cache_discipline(model, rep, classes, exempt=None, skip_guard_rule=False):
         for ma in cache.find_memo_attrs(model, ci):
             for f in cache.check_invalidation(model, ci, ma):
                 rep.ob(f.rule, model.mod(entry[0]), f.node, f.text, f.ok, f.msg, engine='cache')
+    # module-level caches of the modules these classes live in
+    for mname in sorted({e[0] for e in classes}):
+        mod = model.mod(mname)
+        for q, f in cache.check_module_caches(mod):
+            rep.ob(f.rule, mod, f.node, f.text, f.ok, f.msg, engine='cache', qual=q)
     rep.count('methods examined for caches / shortcuts', nmeth)
     rep.ob('memo-key-complete', None, None, 'cache discipline evaluated on %d method(s) of %s' % (nmeth, ', '.join(e[1] for e in classes)),
            True, nontrivial=False, engine='cache')
@@ -521,3 +582,106 @@ def alias_names(fn, name):
                     names |= {a, b}
                     changed = True
     return names
+
+
+# ---------------------------------------------------------------- inverse maps are placed by member, not by position
+def inverse_map_placed(model, rep, sites, rule='inverse-map-placed'):
+    """``sites``: (module, class, method, attribute).  ``self.<attribute>`` is the inverse of a partition P (a list of lists
+    of member indices): readers index it with a *member* and expect the number of the block that holds it.  The writer
+    therefore has to place each entry at the member's own index -- ``M[i] = ind`` for ``i in P[ind]``, or a mapping keyed by
+    ``i``, or a scan ordered by ``range(N)`` -- and not in the order in which the blocks list their members (the two agree
+    only when the flattened partition is 0..N-1, as for the one-block and already-sorted crystals of the test-suite).
+    Located: the definitions of the attribute in the method; verified: one of the accepted placing forms is present;
+    reported: a positional flattening ``[ind for ind, w in enumerate(P) for i in w]`` in which the member variable is
+    never used.  Anything else is undecided."""
+    rep.rule(rule, 'an inverse index map of a partition is written at the member index (M[i] = ind for i in P[ind]), not in listing order')
+    for mname, cname, meth, attr in sites:
+        mod = model.mod(mname)
+        ci = model.cls(mname, cname)
+        fn = ci.methods.get(meth)
+        if fn is None:
+            raise AnalysisError('anchor vanished: %s.%s' % (cname, meth))
+        s = fn.args.args[0].arg
+        # names under which the map is known in the method
+        names = set()
+        defs = []
+        for n in walk_local(fn):
+            if isinstance(n, ast.Assign):
+                for t in n.targets:
+                    if isinstance(t, ast.Attribute) and isinstance(t.value, ast.Name) and t.value.id == s and t.attr == attr:
+                        defs.append(n)
+                        if isinstance(n.value, ast.Name):
+                            names |= alias_names(fn, n.value.id)
+        if not defs:
+            rep.undecided('%s.%s: no assignment to self.%s found' % (cname, meth, attr))
+            continue
+
+        def is_map(e):
+            return (isinstance(e, ast.Attribute) and isinstance(e.value, ast.Name) and e.value.id == s and e.attr == attr) or \
+                   (isinstance(e, ast.Name) and e.id in names)
+
+        def loops_of(node):
+            """[(counter or None, block name, member name)] for nested `for ind, w in enumerate(P)` / `for i in w` around node."""
+            out, chain = [], []
+            p = node
+            while p is not None and p is not fn:
+                if isinstance(p, ast.For):
+                    chain.append((p.target, p.iter))
+                p = getattr(p, '_parent', None)
+            return _pairs(chain[::-1])
+
+        def _pairs(gens):
+            out = []
+            for k, (tgt, it) in enumerate(gens):
+                if isinstance(it, ast.Call) and call_name(it) == 'enumerate' and isinstance(tgt, ast.Tuple) and len(tgt.elts) == 2 \
+                        and all(isinstance(e, ast.Name) for e in tgt.elts):
+                    cnt, blk = tgt.elts[0].id, tgt.elts[1].id
+                    for tgt2, it2 in gens[k + 1:]:
+                        if isinstance(it2, ast.Name) and it2.id == blk and isinstance(tgt2, ast.Name):
+                            out.append((cnt, blk, tgt2.id))
+            return out
+
+        placed, positional = [], []
+        for n in walk_local(fn):
+            # M[i] = ind inside the nested loops
+            if isinstance(n, ast.Assign):
+                for t in n.targets:
+                    if isinstance(t, ast.Subscript) and is_map(t.value) and isinstance(t.slice, ast.Name):
+                        for cnt, blk, mem in loops_of(n):
+                            if t.slice.id == mem and isinstance(n.value, ast.Name) and n.value.id == cnt:
+                                placed.append(n)
+            if isinstance(n, (ast.ListComp, ast.GeneratorExp, ast.DictComp, ast.SetComp)):
+                # is this comprehension (part of) a definition of the map?
+                top = n
+                while getattr(top, '_parent', None) is not None and not isinstance(top._parent, ast.stmt):
+                    top = top._parent
+                st = getattr(top, '_parent', None)
+                if not (isinstance(st, ast.Assign) and (st in defs or any(isinstance(t, ast.Name) and t.id in names for t in st.targets))):
+                    continue
+                gens = [(g.target, g.iter) for g in n.generators]
+                elt_names = {x.id for e in ([n.key, n.value] if isinstance(n, ast.DictComp) else [n.elt]) for x in ast.walk(e)
+                             if isinstance(x, ast.Name)}
+                cond_names = {x.id for g in n.generators for c in g.ifs for x in ast.walk(c) if isinstance(x, ast.Name)}
+                for cnt, blk, mem in _pairs(gens):
+                    if isinstance(n, ast.DictComp):
+                        if any(isinstance(x, ast.Name) and x.id == mem for x in ast.walk(n.key)):
+                            placed.append(n)
+                    elif cnt in elt_names and mem not in elt_names | cond_names:
+                        positional.append((n, cnt, blk, mem))
+                # a scan ordered by the member index: for i in range(N) ... for ind, w in enumerate(P) if i in w
+                if gens and isinstance(gens[0][1], ast.Call) and call_name(gens[0][1]) == 'range' and isinstance(gens[0][0], ast.Name) \
+                        and gens[0][0].id in cond_names | elt_names and len(gens) + sum(isinstance(x, (ast.GeneratorExp, ast.ListComp))
+                                                                                        for x in ast.walk(n.elt)) >= 2:
+                    placed.append(n)
+        q = '%s.%s' % (cname, meth)
+        if placed:
+            rep.ob(rule, mod, placed[0], '%s: self.%s placed at the member index: %s' % (q, attr, unparse(placed[0])[:70]), True,
+                   engine='pattern', qual=q)
+        elif positional:
+            n, cnt, blk, mem = positional[0]
+            rep.ob(rule, mod, n, '%s: self.%s = %s' % (q, attr, unparse(n)[:80]), False,
+                   'the entries are laid down in the order the blocks list their members (%s is never used to place them): '
+                   'entry k is the block of the k-th listed member, not of member k, unless the flattened partition happens to be '
+                   '0..N-1' % mem, engine='pattern', qual=q)
+        else:
+            rep.undecided('%s: how self.%s is placed was not recognised' % (q, attr))
